@@ -47,7 +47,7 @@ def mk_pps(F, model, kind, pp_id, p, ints=False, reverse=False):
 class SolutionRoundTrip(Contract):
     prop = "C14"
     target = "commonroad.common.solution.CommonRoadSolutionWriter.dump"
-    budget_s = 300
+    budget_s = 900
 
     def solution(self, F):
         raise NotImplementedError
